@@ -1,11 +1,13 @@
 SPECIFICATION Spec
-CONSTANTS MaxPre = 1 MaxN = 6
+CONSTANTS MaxPre = 1 MaxN = 5
   PreAlphabet <- AlphaFull
   Accs <- AccsAll
   Posts <- PostsMid
-  Pairs = {TRUE, FALSE}
+  FlowKinds = {"bare", "ctx"}
   Drivers = {"run", "fill", "split"}
-  Bufs <- BufAll
+  Places = {"alone", "first", "middle", "last"}
+  CopyMode = "per_branch"
+  Bufs <- BufQuick
 INVARIANT DriversAgree
 INVARIANT FillReaches
 INVARIANT StopSound
